@@ -174,12 +174,25 @@ def gen_function(c: Contract, prop: str, bounded=None) -> FunctionReport:
                 # exceptional frame / postcondition
                 efn = c.hints.get("on_raise")
                 if efn is not None:
-                    b = dict(s1.old.env)
+                    # exceptional postcondition: sees the parameters (entry values), `old`, the locals at the raise
+                    # point, the exception class name and (for sys.exit-like externals) its first argument
+                    b = dict(s1.env)
+                    b.update(s1.old.env)
                     b["old"] = PyObj(s1.old)
+                    b["exc_class"] = K(exc.cls.__name__)
+                    b["exc_value"] = exc.value[0] if exc.value else K(None)
+                    _, eps = contract_ast(efn)
+                    missing = [k for k in eps if k not in b]
+                    if missing:
+                        for k in missing:      # a local that is not defined on this path: arbitrary
+                            t = c.types.get(k)
+                            if not isinstance(t, Ty):
+                                raise Stale(f"{c.key}: on_raise names {k!r} (undefined here, no declared type)")
+                            b[k] = fresh(t, "undef_" + k)
                     s2 = s1.fork()
-                    s2.env = dict(s1.env)
-                    g = ex.eval_contract(s2, efn, {k: v for k, v in b.items() if k in contract_ast(efn)[1]})
-                    ex.emit(s1, "raises-post", exc.cls.__name__, g)
+                    g = ex.eval_contract(s2, efn, {k: v for k, v in b.items() if k in eps})
+                    extra = s2.pc[len(s1.pc):]
+                    ex.emit(s1, "raises-post", exc.cls.__name__, z3.Implies(z3.And(*extra), g) if extra else g)
                 continue
             # normal return
             if c.ghost_yield is not None:
@@ -197,9 +210,12 @@ def gen_function(c: Contract, prop: str, bounded=None) -> FunctionReport:
                     elif p == "old":
                         b[p] = PyObj(s1.old)
                     elif p in c.ghost_out:
-                        # ghost output: the final value of a local (arbitrary on paths that never define it)
-                        gv = s1.env.get(p)
-                        b[p] = coerce(gv, c.ghost_out[p]) if gv is not None else fresh(c.ghost_out[p], "ghost_" + p)
+                        # ghost output: the final value of a local (arbitrary on paths that never define it);
+                        # `name: (local, Ty)` renames a local whose name is reserved (e.g. a local called `result`)
+                        spec_ = c.ghost_out[p]
+                        lname, gty = spec_ if isinstance(spec_, tuple) else (p, spec_)
+                        gv = s1.env.get(lname)
+                        b[p] = coerce(gv, gty) if gv is not None else fresh(gty, "ghost_" + p)
                     elif p in s1.old.env:
                         # parameters: current value (lists may have been mutated in place -> env updated)
                         b[p] = s1.env.get(p, s1.old.env[p]) if p in c.modifies else s1.old.env[p]
